@@ -8,7 +8,8 @@ use serde_json::{json, Value};
 use std::collections::BTreeMap;
 use std::sync::{Arc, Mutex};
 
-const LIT: [&str; 14] = ["a", "b", " ", "{", "}", ":", "-", "#", "=", "x y", "1", ".", "{}", "é"];
+// the last four contain a lone % or $ (followed by a harmless character): plain text, not a reference
+const LIT: [&str; 18] = ["a", "b", " ", "{", "}", ":", "-", "#", "=", "x y", "1", ".", "{}", "é", "50% off", "% x", "5$ y", "a%b"];
 const NAMES: [&str; 5] = ["x", "y", "long_name", "a.b", "n1"];
 const VALS: [&str; 17] = ["", "v", "two words", "${x}", "%{y}", "\\${x}", "a}b", "$", "%", " lead", "q\"uote", "back\\slash", "end\n", "a b\t", "w\r\n", "trail ", "\u{a0}nb"];
 
@@ -29,10 +30,12 @@ pub fn gen(r: &mut Rng) -> Value {
         let np = 1 + r.below(4);
         let mut pieces = vec![];
         for _ in 0..np {
-            pieces.push(match r.below(5) {
-                0 | 1 => json!({"lit": r.pick(&LIT)}),
-                2 | 3 => json!({"var": r.pick(&NAMES)}),
-                _ => json!({"esc": r.pick(&NAMES)}),
+            pieces.push(match r.below(11) {
+                0..=3 => json!({"lit": r.pick(&LIT)}),
+                4..=7 => json!({"var": r.pick(&NAMES)}),
+                8 | 9 => json!({"esc": r.pick(&NAMES)}),
+                // a spread reference that is only PART of the written argument
+                _ => json!({"spr": r.pick(&NAMES)}),
             });
         }
         args.push(json!({"pieces": pieces}));
@@ -53,11 +56,40 @@ fn quote(s: &str) -> String {
     o
 }
 
+/// structural class of an input (to tell the listed known finding from a new violation)
+pub fn class_of(input: &Value) -> &'static str {
+    let embedded = input["args"].as_array().map(|a| a.iter().any(|x| {
+        x["pieces"].as_array().map(|p| p.len() > 1 && p.iter().any(|q| !q["spr"].is_null())).unwrap_or(false)
+    })).unwrap_or(false);
+    if embedded { "spread-reference-inside-a-larger-argument" } else { "other" }
+}
+
 pub fn run(input: &Value) -> Option<Value> {
+    run_inner(input).map(|mut d| {
+        d["class"] = json!(class_of(input));
+        d
+    })
+}
+
+fn run_inner(input: &Value) -> Option<Value> {
     let env: BTreeMap<String, String> = input["env"].as_object()?.iter().map(|(k, v)| (k.clone(), v.as_str().unwrap().to_string())).collect();
     let mut written = vec![];
     let mut expected: Vec<String> = vec![];
+    let mut count_only = false;
     for a in input["args"].as_array()? {
+        // an argument that consists of a single spread piece is the documented %{name} form
+        if let Some(p) = a["pieces"].as_array() {
+            if p.len() == 1 && !p[0]["spr"].is_null() {
+                let n = p[0]["spr"].as_str()?;
+                written.push(format!("%{{{}}}", n));
+                let v = env.get(n).cloned().unwrap_or_default();
+                if v.contains('"') || v.contains('#') || v.contains('\\') {
+                    return None;
+                }
+                expected.extend(v.split(' ').filter(|w| !w.is_empty()).map(|w| w.to_string()));
+                continue;
+            }
+        }
         if let Some(n) = a["spread"].as_str() {
             written.push(format!("%{{{}}}", n));
             let v = env.get(n).cloned().unwrap_or_default();
@@ -82,6 +114,11 @@ pub fn run(input: &Value) -> Option<Value> {
             } else if let Some(n) = p["esc"].as_str() {
                 text.push_str(&format!("\\${{{}}}", n));
                 exp.push_str(&format!("${{{}}}", n));
+            } else if let Some(n) = p["spr"].as_str() {
+                // %{name} inside a larger argument: the statement fixes only that the argument stays ONE argument
+                text.push_str(&format!("%{{{}}}", n));
+                exp.push_str(env.get(n).map(|s| s.as_str()).unwrap_or(""));
+                count_only = true;
             }
             let _ = i;
         }
@@ -99,6 +136,12 @@ pub fn run(input: &Value) -> Option<Value> {
     match runner::run_script(&script, context, None) {
         Ok(_) => {
             let got = calls.lock().unwrap().clone();
+            if count_only {
+                if got.len() != 1 || got[0].len() != expected.len() {
+                    return Some(json!({"script": script, "env": env, "what": "a written argument that is not exactly %{name} became several (or no) arguments", "expected_count": expected.len(), "real": got}));
+                }
+                return None;
+            }
             if got.len() != 1 || got[0] != expected {
                 Some(json!({"script": script, "env": env, "expected": expected, "real": got}))
             } else {
